@@ -273,20 +273,7 @@ func C07(sp *spec.Spec, genDir string, mounted map[string][][2]string) *Verdict 
 		// parameters, bodies, codes per design method. A (verb, path) pair claimed by several methods of the
 		// design (goa accepts such designs; the last Mount wins on the muxer and the last operation wins in the
 		// document) cannot be attributed to one method: not judged.
-		claims := map[string]int{}
-		for _, sv := range sp.Services {
-			if sv.NoHTTP {
-				continue
-			}
-			for _, m := range sv.Methods {
-				if m.HTTP == nil {
-					continue
-				}
-				for ri, r := range m.HTTP.Routes {
-					claims[r.Verb+" "+normPath(cases.FullPath(sp, sv, m, ri))]++
-				}
-			}
-		}
+		claims := routeClaims(sp)
 		for _, sv := range sp.Services {
 			if sv.NoHTTP {
 				continue
@@ -311,6 +298,25 @@ func C07(sp *spec.Spec, genDir string, mounted map[string][][2]string) *Verdict 
 		}
 	}
 	return v
+}
+
+// routeClaims counts, per "VERB /normalised/path", the design methods that declare that route.
+func routeClaims(sp *spec.Spec) map[string]int {
+	claims := map[string]int{}
+	for _, sv := range sp.Services {
+		if sv.NoHTTP {
+			continue
+		}
+		for _, m := range sv.Methods {
+			if m.HTTP == nil {
+				continue
+			}
+			for ri, r := range m.HTTP.Routes {
+				claims[r.Verb+" "+normPath(cases.FullPath(sp, sv, m, ri))]++
+			}
+		}
+	}
+	return claims
 }
 
 func opClass(sp *spec.Spec, key string) string {
